@@ -1,5 +1,201 @@
-(* C05 — property theorems (placeholder until the model is built). *)
-From WI Require Import Lib.Base Lib.Info Model.Routes Proofs.Routes.
-Theorem C05_placeholder : True.
-Proof. exact I. Qed.
-Print Assumptions C05_placeholder.
+(* C05 — the description of an ASN.1 object is invariant under re-encoding and presentation.
+   Only statements; proofs are in Proofs/Routes.v.
+
+   Vocabulary (Model/Routes.v):
+     lib                    the library answers that are not modelled byte for byte: x509 certificate
+                            parsing + description (l_cert), the attribute builders of the six key
+                            parsers (l_desc), the generic dump (l_generic)
+     parse_kind L k d       individual parser k on d: 0 certificate, 1 PKCS#8, 2 SubjectPublicKeyInfo,
+                            3 PKCS#1 public, 4 SEC1 EC private, 5 PKCS#1 private, 6 DSA private;
+                            for 1..6: asn1.Unmarshal into the repository's struct (schema matcher), then l_desc
+     route_der              parseDERData (trial order);  asn1_file / b64_file / route_pem: the three parsers
+     pem_blocks_of          the loop of PEMFile over encoding/pem.Decode (Model/Pem.v)
+     inspect_file           file.Inspect over the regenerated format table
+     der_of_kind k d        d is exactly one DER value of bytes; kinds 1..6: accepted by kind k's struct, and
+                            (k=3) it has exactly two elements, (k=6) its q does not fit a Go int;
+                            kind 0 (certificate, structure left to the x509 oracle): starts with 30, contains
+                            a byte that is no base64 character, a byte at offsets 1..7 is no hex digit
+                            (for kinds 1..6 these three facts are lemmas: key_shape, key_not_hex7)
+     uuid_oracle_ok so      the UUID sniffer (oracle) says yes only if uuid_possible holds: at most 45 bytes
+                            that TrimSpace cannot remove, and after a leading ASCII non-space byte other
+                            than u/U come seven hex digits (necessary condition read off uuid.Parse)
+     cert_oracle_ok L k d   x509 accepts d iff k = 0
+     reserved_in table n    the base name of n is one of the table's name patterns *)
+From WI Require Import Lib.Base Lib.Info Lib.Strings Model.Base64 Model.Dispatch Model.Render Model.Pem Model.Routes.
+From WI Require Import Proofs.Routes.
+From WI Require Proofs.Pem.
+Open Scope N_scope.
+
+(* T1: what the routes need from the format table, re-proved on the table regenerated from the
+   running code: name patterns are exact names; no magic starts with '0' or 'M'; the first rows with
+   a sniffer are IsUUID, IsBase64ASN1/Base64ASN1File, IsASN1/ASN1File (base64 BEFORE binary: C05-F1);
+   the PEMFile signature row is preceded only by signature rows that cannot match a PEM block
+   with one of the seven labels; every other sniffer row is one of IsUUID/IsJWT/IsASN1/IsBase64ASN1
+   or leads to PEMFile *)
+Theorem C05_table_ok :
+  routes_table_ok table = true /\ pem_table_ok pem_heads table = true /\ surrounded_table_ok table = true.
+Proof. exact (conj routes_table_ok_now (conj pem_table_ok_now surrounded_table_ok_now)). Qed.
+Print Assumptions C05_table_ok.
+
+(* the reserved names are exactly the two SSH file names; "/dev/stdin" is not reserved *)
+Theorem C05_reserved_names : forall name, name <> [] ->
+  reserved_in table name =
+  bytes_eqb (basename name) (bs "authorized_keys") || bytes_eqb (basename name) (bs "known_hosts").
+Proof. exact reserved_names_now. Qed.
+Print Assumptions C05_reserved_names.
+
+(* TRIAL ORDER: for a well-formed object of kind k, no parser that parseDERData tries before k's
+   accepts it, so the DER route gives exactly what k's own parser gives *)
+Theorem C05_trial_order : forall L k d, (k <= 6)%nat ->
+  der_of_kind k d = true -> cert_oracle_ok L k d = true ->
+  route_der L d = parse_kind L k d.
+Proof. exact trial_order_thm. Qed.
+Print Assumptions C05_trial_order.
+
+(* PEM FRAMING (model of encoding/pem.Decode and of PEMFile's loop, Model/Pem.v): a file made of text
+   without a start marker, one block as OpenSSL/encoding/pem write it (label line, padded base64
+   wrapped at 64, END line; LF or CRLF), and text without a start marker yields exactly that block *)
+Theorem C05_pem_framing : forall label d crlf pre post,
+  ~ In 10 label -> bytes_ok d = true -> d <> [] ->
+  index_of pem_begin (pre ++ pem_begin) = Some (length pre) ->
+  index_of pem_begin post = None ->
+  pem_blocks_of (pem_text label d crlf pre post) = [(label, d)].
+Proof. exact Proofs.Pem.pem_blocks_of_pem_text. Qed.
+Print Assumptions C05_pem_framing.
+
+(* PEM = DER at the level of the parsers: a block whose label is the kind's label, between
+   surrounding text that contains no "-----BEGIN " *)
+Theorem C05_pem_eq_der : forall L k d crlf pre post, (k <= 6)%nat ->
+  der_of_kind k d = true -> cert_oracle_ok L k d = true ->
+  index_of pem_begin (pre ++ pem_begin) = Some (length pre) -> index_of pem_begin post = None ->
+  route_pem L pem_blocks_of (pem_text (label_of k) d crlf pre post) = route_der L d.
+Proof. exact pem_eq_der_model. Qed.
+Print Assumptions C05_pem_eq_der.
+
+(* ... for a label in any letter case (anything that strings.ToUpper maps to the kind's label) *)
+Theorem C05_pem_label_case : forall L k typ d, (k <= 6)%nat ->
+  to_upper_go typ = label_of k ->
+  der_of_kind k d = true -> cert_oracle_ok L k d = true ->
+  parse_pem_block L typ d = route_der L d.
+Proof. exact pem_block_eq_der. Qed.
+Print Assumptions C05_pem_label_case.
+
+(* PEM = DER through the dispatcher, file starting with the block (LF or CRLF, any trailer without
+   a start marker), ANY file name *)
+Theorem C05_pem_eq_der_inspect : forall L sniff_other parse_other name k d crlf post, (k <= 6)%nat ->
+  der_of_kind k d = true -> cert_oracle_ok L k d = true ->
+  index_of pem_begin post = None ->
+  inspect_file L pem_blocks_of sniff_other parse_other name (pem_text (label_of k) d crlf [] post) = route_der L d.
+Proof. exact inspect_pem_eq_der_model. Qed.
+Print Assumptions C05_pem_eq_der_inspect.
+
+(* PEM block after other text: the whole file must not be claimed by another format — no magic at
+   its start, not a UUID, not a JWT, not itself one BER value ("Ar\n-----BEGIN ..." of the right length
+   is one), not base64 — and "-----BEGIN" must occur before the first "-----END" *)
+Theorem C05_pem_surrounded : forall L sniff_other parse_other name k d crlf pre post i, (k <= 6)%nat ->
+  der_of_kind k d = true -> cert_oracle_ok L k d = true ->
+  let text := pem_text (label_of k) d crlf pre post in
+  index_of pem_begin (pre ++ pem_begin) = Some (length pre) -> index_of pem_begin post = None ->
+  reserved_in table name = false ->
+  forallb (fun r => negb (matches_magic r text)) table = true ->
+  sniff_other (bs "IsUUID") text = false -> sniff_other (bs "IsJWT") text = false ->
+  is_asn1 text = false -> is_b64_asn1 text = false -> is_mixed_pem text = true ->
+  route_der L d = Ok i ->
+  inspect_file L pem_blocks_of sniff_other parse_other name text = Ok i.
+Proof. exact pem_surrounded_model. Qed.
+Print Assumptions C05_pem_surrounded.
+
+(* BASE64 = DER at the level of the parsers: any of the four alphabets/paddings, any wrap width,
+   LF or CRLF, with or without a final line break (uses C14's decoder lemmas) *)
+Theorem C05_b64_eq_der_parsers : forall L e w crlf trail d, bytes_ok d = true ->
+  b64_file L (b64_text e w crlf trail d) = asn1_file L d.
+Proof. exact b64_file_eq_der. Qed.
+Print Assumptions C05_b64_eq_der_parsers.
+
+(* routing: neither presentation can be taken for a UUID *)
+Theorem C05_b64_text_not_uuid : forall e w crlf trail d, bytes_ok d = true -> (34 <= length d)%nat ->
+  uuid_possible (b64_text e w crlf trail d) = false.
+Proof. exact b64_text_not_uuid. Qed.
+Print Assumptions C05_b64_text_not_uuid.
+
+Theorem C05_der_not_uuid : forall k d, der_of_kind k d = true -> uuid_possible d = false.
+Proof. exact der_not_uuid. Qed.
+Print Assumptions C05_der_not_uuid.
+
+(* BASE64 = DER through the dispatcher, under any two non-reserved names, for objects of at
+   least 34 bytes (every key of 256 bits or more).  The UUID sniffer is an oracle assumed to
+   satisfy the necessary condition [uuid_oracle_ok]. *)
+Theorem C05_b64_eq_der : forall L pem_blocks sniff_other parse_other n1 n2 k d e w crlf trail, (k <= 6)%nat ->
+  der_of_kind k d = true -> cert_oracle_ok L k d = true -> (34 <= length d)%nat ->
+  reserved_in table n1 = false -> reserved_in table n2 = false ->
+  uuid_oracle_ok sniff_other ->
+  inspect_file L pem_blocks sniff_other parse_other n1 (b64_text e w crlf trail d)
+  = inspect_file L pem_blocks sniff_other parse_other n2 d.
+Proof. exact b64_eq_der. Qed.
+Print Assumptions C05_b64_eq_der.
+
+(* ... and that common description is the one of the kind's parser *)
+Theorem C05_der_described_by_kind : forall L pem_blocks sniff_other parse_other n k d, (k <= 6)%nat ->
+  der_of_kind k d = true -> cert_oracle_ok L k d = true ->
+  reserved_in table n = false -> uuid_oracle_ok sniff_other ->
+  forall i, parse_kind L k d = Ok i -> i_desc i <> i_desc unknown_asn1 ->
+  inspect_file L pem_blocks sniff_other parse_other n d = Ok i.
+Proof. exact der_described_by_kind. Qed.
+Print Assumptions C05_der_described_by_kind.
+
+(* NAME: for every content, every behaviour of sniffers and parsers, and any table whose name
+   patterns are exact names, two names that match no pattern give the same result *)
+Theorem C05_name_irrelevant : forall sniff parse t n1 n2 data, patterns_exact t = true ->
+  reserved_in t n1 = false -> reserved_in t n2 = false ->
+  inspect_in sniff parse t n1 data = inspect_in sniff parse t n2 data.
+Proof. exact name_irrelevant. Qed.
+Print Assumptions C05_name_irrelevant.
+
+Theorem C05_file_name_irrelevant : forall L pem_blocks sniff_other parse_other n1 n2 data,
+  reserved_in table n1 = false -> reserved_in table n2 = false ->
+  inspect_file L pem_blocks sniff_other parse_other n1 data
+  = inspect_file L pem_blocks sniff_other parse_other n2 data.
+Proof. exact file_name_irrelevant. Qed.
+Print Assumptions C05_file_name_irrelevant.
+
+(* STDIN: `decipher path` prints "path: " followed by exactly what `decipher -` / `decipher` print
+   for the same bytes on standard input (any content, any non-reserved path) *)
+Theorem C05_stdin : forall L pem_blocks sniff_other parse_other path data,
+  reserved_in table path = false ->
+  cli L pem_blocks sniff_other parse_other (Some path) data =
+  match cli L pem_blocks sniff_other parse_other None data with
+  | Ok out => Ok (path ++ [58; 32] ++ out)
+  | Err e => Err e
+  | Panic p => Panic p
+  end.
+Proof. exact stdin_thm. Qed.
+Print Assumptions C05_stdin.
+
+(* ---- the unrepaired code refuted ---- *)
+(* C05-F1 (table before the repair: ASN1File tried before Base64ASN1File): a well-formed EC key whose
+   base64 text is itself one BER value is described differently from its DER *)
+Theorem C05_F1_refuted : exists k d e w crlf trail name,
+  (k <= 6)%nat /\ der_of_kind k d = true /\ cert_oracle_ok L0 k d = true /\
+  reserved_in table_before name = false /\
+  inspect_in_table L0 no_blocks no_sniff no_parse table_before name (b64_text e w crlf trail d)
+  <> inspect_in_table L0 no_blocks no_sniff no_parse table_before name d.
+Proof. exact F1_refuted. Qed.
+Print Assumptions C05_F1_refuted.
+
+(* C05-F2 (trial order before the repair: PKCS#1 public before the private forms): a PKCS#1 private key
+   with a modulus below 2^63 gets the public-key description as DER, the private-key one as PEM *)
+Theorem C05_F2_refuted : exists d,
+  der_of_kind 5 d = true /\
+  first_kind L0 trial_order_before d = Ok (l_desc L0 3 d) /\
+  parse_pem_block L0 (label_of 5) d = Ok (l_desc L0 5 d) /\
+  l_desc L0 3 d <> l_desc L0 5 d.
+Proof. exact F2_refuted. Qed.
+Print Assumptions C05_F2_refuted.
+
+(* what no trial order can decide: a DSA private key with a toy q is, as DER, an RSAPrivateKey too;
+   this is why [der_of_kind 6] requires a q of more than 8 octets *)
+Theorem C05_dsa_toy_q_ambiguous : exists d,
+  accepts s_dsapriv d = true /\ der_of_kind 6 d = false /\
+  route_der L0 d = Ok (l_desc L0 5 d) /\ parse_pem_block L0 (label_of 6) d = Ok (l_desc L0 6 d).
+Proof. exact dsa_toy_q_ambiguous. Qed.
+Print Assumptions C05_dsa_toy_q_ambiguous.
